@@ -54,12 +54,41 @@ class FBB(int):
         return hash((self.frame, int(self)))
 
 
+def _some(x):
+    return ("agg", "std::option::Option", "Some", (x,))
+
+
+def _ok(x):
+    return ("agg", "std::result::Result", "Ok", (x,))
+
+
+def _err(x):
+    return ("agg", "std::result::Result", "Err", (x,))
+
+
+_NONE = ("agg", "std::option::Option", "None", ())
+_O, _R = "std::option::Option::<T>::", "std::result::Result::<T, E>::"
+# combinator -> what it does per variant of its receiver: ("value", f(payload, args)) | ("call", closure arg index) | ("wrapcall", index, wrapper)
+LOWERABLE = {
+    _O + "map": {"on": "opt", "arms": {"Some": ("wrapcall", 1, _some), "None": ("value", lambda p, a: _NONE)}},
+    _O + "map_or": {"on": "opt", "arms": {"Some": ("call", 2), "None": ("value", lambda p, a: a[1])}},
+    _O + "map_or_else": {"on": "opt", "arms": {"Some": ("call", 2), "None": ("call", 1)}},
+    _O + "unwrap_or_else": {"on": "opt", "arms": {"Some": ("value", lambda p, a: p), "None": ("call", 1)}},
+    _O + "and_then": {"on": "opt", "arms": {"Some": ("call", 1), "None": ("value", lambda p, a: _NONE)}},
+    _R + "map": {"on": "res", "arms": {"Ok": ("wrapcall", 1, _ok), "Err": ("value", lambda p, a: _err(p))}},
+    _R + "and_then": {"on": "res", "arms": {"Ok": ("call", 1), "Err": ("value", lambda p, a: _err(p))}},
+    _R + "unwrap_or_else": {"on": "res", "arms": {"Ok": ("value", lambda p, a: p), "Err": ("call", 1)}},
+    _R + "or_else": {"on": "res", "arms": {"Ok": ("value", lambda p, a: _ok(p)), "Err": ("call", 1)}},
+    # only with a closure literal (a constructor function as argument stays an ordinary call)
+    _R + "map_err": {"on": "res", "arms": {"Ok": ("value", lambda p, a: _ok(p)), "Err": ("wrapcall", 1, _err)}},
+    _O + "ok_or_else": {"on": "opt", "arms": {"Some": ("value", lambda p, a: _ok(p)), "None": ("wrapcall", 1, _err)}},
+}
 _FRESH = [0]
 NOT_FOLLOWED = set()
 
 
 class PathEnum:
-    def __init__(self, fn, facts, max_paths=20000, start_env=None, versioned=False, frame="", depth=0, inline_new=True, inline_also=None, mark_cycles=False):
+    def __init__(self, fn, facts, max_paths=20000, start_env=None, versioned=False, frame="", depth=0, inline_new=True, inline_also=None, mark_cycles=False, lower=False):
         self.fn = fn
         self.facts = facts
         self.versioned = versioned
@@ -68,6 +97,7 @@ class PathEnum:
         self.cont = None            # continuation invoked at `return` of an inlined callee
         self.inline_new = inline_new
         self.inline_also = inline_also    # predicate (path, args): traverse this known crate-local callee inline as well
+        self.lower = lower                # Option/Result combinators given a closure literal are replaced by the branch + closure body they stand for
         self.mark_cycles = mark_cycles    # record an ("enter", block) event for every block that lies on a CFG cycle
         self._cyclic = set(fn.cyclic_blocks()) if mark_cycles else ()
         self.max_paths = max_paths
@@ -130,6 +160,12 @@ class PathEnum:
                         t = t[3][idx]
                         continue
                     except IndexError:
+                        pass
+                if t[0] == "closure":
+                    try:
+                        t = t[2][e["idx"]]      # a captured variable
+                        continue
+                    except (IndexError, KeyError):
                         pass
                 if t[0] == "downcast" and t[1][0] == "agg" and t[1][2] == t[2]:
                     try:
@@ -323,6 +359,8 @@ class PathEnum:
                 else:
                     path = callee_path(t)
                 ct = ("call", path, args, ebb)
+                if self.lower and path in LOWERABLE and t.get("target") is not None and self._lower(path, args, t, env, conds, trace, events, onpath, ebb):
+                    return
                 if t.get("target") is not None and path in self.facts.fns and ((self.inline_new and self.depth < 3 and path not in known_fns()) or (self.inline_also is not None and self.depth < 6 and self.inline_also(path, args))):
                     self._inline(path, args, t, env, conds, trace, events, onpath, ebb)
                     return
@@ -420,14 +458,63 @@ class PathEnum:
             return None if rb is None else rb + base[len("(*_%s)" % num):]
         return None
 
-    def _inline(self, path, args, t, env, conds, trace, events, onpath, bb):
+    def _lower(self, path, args, t, env, conds, trace, events, onpath, bb):
+        """`opt.map(|x| ..)`, `opt.map_or_else(|| .., |x| ..)`, `res.and_then(|x| ..)` ... with closure literals:
+        branch on the receiver's variant and walk the closure body, exactly what the combinator does."""
+        spec = LOWERABLE[path]
+        recv = args[0]
+        variants = ("None", "Some") if spec["on"] == "opt" else ("Ok", "Err")
+        d = ("discr", recv)
+
+        def closure_of(i):
+            c = args[i]
+            while c[0] in ("ref", "deref"):
+                c = c[1]
+            if c[0] == "closure" and c[1] in self.facts.fns:
+                return c
+            return None
+
+        for how in spec["arms"].values():
+            if how[0] in ("call", "wrapcall") and closure_of(how[1]) is None:
+                return False
+        taken = False
+        for idx, vname in enumerate(variants):
+            if recv[0] == "agg":
+                if recv[2] != vname:
+                    continue
+                conds_b, events_b = conds, events
+            else:
+                if not feasible(conds, d, ("eq", idx), events):
+                    continue
+                conds_b = conds + [(d, ("eq", idx), bb)]
+                events_b = events + [("cond", bb, None, d, ("eq", idx))]
+            taken = True
+            payload = recv[3][0] if recv[0] == "agg" and recv[3] else ("field", ("downcast", recv, vname), None, "0")
+            how = spec["arms"][vname]
+            events_b = events_b + [("lowered", bb, None, path, ("call", path, args, bb), t)]
+            if how[0] == "value":
+                v = how[1](payload, args)
+                env2 = dict(env)
+                self._assign(env2, t["dest"], v)
+                self._walk(t["target"], env2, conds_b, trace, events_b, onpath)
+            else:
+                clo = closure_of(how[1])
+                callee = self.facts.fns[clo[1]]
+                ty1 = callee.locals[1]["ty"] if callee.nargs >= 1 else {}
+                self_arg = ("ref", clo, bool(ty1.get("mut"))) if ty1.get("k") == "ref" else clo
+                cargs = [self_arg] + ([payload] if callee.nargs >= 2 else [])
+                wrap = how[2] if how[0] == "wrapcall" else None
+                self._inline(clo[1], tuple(cargs), t, dict(env), conds_b, trace, events_b, onpath, bb, ret_wrap=wrap, use_ops=False)
+        return taken
+
+    def _inline(self, path, args, t, env, conds, trace, events, onpath, bb, ret_wrap=None, use_ops=True):
         """A crate-local function that did not exist when the rules were written (a helper introduced by a
         refactoring) is traversed, not treated as an opaque call: its body is walked with its parameters
         bound to the actual argument terms and to what the caller knows about the places they point at;
         the walk resumes in the caller at each of its returns, with the callee's writes through `&mut`
         parameters (and its invalidations by opaque calls) carried back."""
         callee = self.facts.fns[path]
-        child = PathEnum(callee, self.facts, self.max_paths, None, self.versioned, frame=(self.frame + "/" if self.frame else "") + "%s@%d" % (path.rsplit("::", 1)[-1], bb), depth=self.depth + 1, inline_new=self.inline_new, inline_also=self.inline_also, mark_cycles=self.mark_cycles)
+        child = PathEnum(callee, self.facts, self.max_paths, None, self.versioned, frame=(self.frame + "/" if self.frame else "") + "%s@%d" % (path.rsplit("::", 1)[-1], bb), depth=self.depth + 1, inline_new=self.inline_new, inline_also=self.inline_also, mark_cycles=self.mark_cycles, lower=self.lower)
         child.leaves = self.leaves
         cenv = {}
         bases = {}
@@ -437,7 +524,7 @@ class PathEnum:
                 a = ("argv", a[1], env["@ver:_%d" % a[1]])
             cenv["_%d" % n] = a
             base = None
-            op = t["args"][i] if i < len(t["args"]) else None
+            op = t["args"][i] if use_ops and i < len(t["args"]) else None
             if op is not None and op["k"] in ("copy", "move"):
                 base = env.get("@ref:" + pp.place_s(op["place"]))    # `&mut local` taken earlier (two-phase borrow temp)
             if base is None:
@@ -473,6 +560,8 @@ class PathEnum:
                             env2[key] = v
                             caller._overlay_parent(env2, key, v)
             ret = cenv2.get("_0", ("unknown", "unset"))
+            if ret_wrap is not None:
+                ret = ret_wrap(ret)
             caller._assign(env2, dest, ret)
             caller._walk(target, env2, conds2, trace2, events2 + [("inlined-return", bb, None, path, ret)], onpath)
 
